@@ -19,3 +19,10 @@ Proof. vm_compute. reflexivity. Qed.
 Lemma P_ctor_buf_cases : forall b m, c06_ctor_buf (Some b) m = b /\ c06_ctor_buf None (Some b) = b /\
   c06_ctor_buf None None = N.to_nat c06_param_default_buffer.
 Proof. intros. repeat split. Qed.
+
+Lemma P_vsc_move_swap : forall a b f1 f2 f3,
+  (vsc_buf (c06_vsc_move a f1) = vsc_buf a /\ vsc_iface (c06_vsc_move a f1) = vsc_iface a /\ vsc_comm (c06_vsc_move a f1) = f1) /\
+  (let (a', b') := c06_vsc_swap a b f1 f2 f3 in
+   vsc_buf a' = vsc_buf b /\ vsc_iface a' = vsc_iface b /\ vsc_buf b' = vsc_buf a /\ vsc_iface b' = vsc_iface a /\
+   vsc_comm a' = f2 /\ vsc_comm b' = f3).
+Proof. intros. repeat split. Qed.
